@@ -22,7 +22,8 @@ RULE = ("crash points: for each document x configuration every rule of the core/
         "exception is caught outside it} up to 3 steps and nesting 3 x exit in {normal, raise, return, generator "
         "close}: on every exit path the rules in force on entry are back and the exception object propagates. "
         "Non-trivial = a fault that was actually raised inside the library; distinct = distinct (config, document, "
-        "site, index, when, class).")
+        "site, when, class) fault kinds (the invocation index is not counted as distinct) plus distinct reset_rules "
+        "programs.")
 
 DOCS = [
     "# h\n\n> *a* [l](u) `c`\n\n- x\n- y\n\n```py\nz\n```\n\n![i](j) &amp; \\*\n",
@@ -134,7 +135,8 @@ def faults_for_site(ci, di, site, N, acc, excs):
                         bad = (f"different exception {type(e).__name__}", f"caller received {type(e).__name__}: {e} instead of the injected object")
                 plan.clear()
                 counts.clear()
-                acc.sig((ci, di, site, i, when, E.__name__))
+                if plan.get("fired") or bad is None:
+                    acc.sig((ci, di, site, when, E.__name__))
                 if bad is None:
                     if snapshot(md) != snap0:
                         bad = ("rules/options/render rules changed", f"after the failed call: {snapshot(md)} != {snap0}")
@@ -352,7 +354,7 @@ def _unjson(body):
 # ---- driver --------------------------------------------------------------------------------------------------
 def bounds(tier):
     th = tier == "thorough"
-    return {"documents": len(DOCS) if th else 2, "configs": CFGS, "exception_classes": [e.__name__ for e in EXC],
+    return {"documents": len(DOCS) if th else 3, "configs": CFGS, "exception_classes": [e.__name__ for e in EXC],
             "when": ["before", "after"], "fault_pairs": "all ordered pairs on 2 documents (js-default)" if th else "none (sequences by instance reuse)",
             "reset_rules": {"actions": ACTIONS, "exits": EXITS, "max_steps": 3 if th else 2, "nesting": 3 if th else 2,
                             "inner_steps": 2 if th else 1, "presets": ["commonmark", "js-default"]}}
@@ -364,7 +366,7 @@ def shards(tier):
     th = tier == "thorough"
     sh = []
     for ci in range(len(CFGS)):
-        for di in range(len(DOCS) if th else 2):
+        for di in range(len(DOCS) if th else 3):
             for part in range(8):
                 sh.append(("faults", ci, di, part, 8))
     if th:
